@@ -244,9 +244,15 @@ PROPS = {
             {"id": "validate", "func": "VerifValidate", "pkg": "fat/fat2", "pkgname": "fat2", "load": ["./fat/fat2"],
              "params": {"quick": {"maxtx": 2, "maxout": 2}, "thorough": {"maxtx": 3, "maxout": 2}},
              "must_cover": ["accepted", "rejected"], "max_witness_replays": 6},
+            {"id": "tx-decode", "func": "VerifTxDecode", "pkg": "fat/fat2", "pkgname": "fat2", "load": ["./fat/fat2"],
+             "params": {"quick": {"maxmembers": 4}, "thorough": {"maxmembers": 5}},
+             "must_cover": ["canonical", "not-canonical"], "max_witness_replays": 8},
+            {"id": "obj-decode", "func": "VerifObjDecode", "pkg": "fat/fat2", "pkgname": "fat2", "load": ["./fat/fat2"],
+             "params": {"quick": {"maxmembers": 4}, "thorough": {"maxmembers": 5}},
+             "must_cover": ["canonical", "not-canonical"], "max_witness_replays": 8},
         ],
         "wall": {"quick": 400, "thorough": 3000},
-        "bounds": {"quick": "decimal strings of the accepted shape with 0..20 integer digits and 0..9 fraction digits, every digit symbolic; decoded batches of 0..2 transactions with 0..2 transfers, all amounts uint64, tickers over the full range",
+        "bounds": {"quick": "decimal strings of the accepted shape with 0..20 integer digits and 0..9 fraction digits, every digit symbolic; decoded batches of 0..2 transactions with 0..2 transfers, all amounts uint64, tickers over the full range; the three length-checked decoders (Transaction, TransactionBatch, AddressAmountTuple) over JSON objects of 1..4 members drawn with repetition and in any order from their known keys and an unknown key (transfers value: a list, [] or null)",
                    "thorough": "22/10 digits; 3 transactions"},
         "assumptions": ["the three regular expressions of cmd/util.go are modelled by per-pattern predicates keyed on the pattern text; strconv.Atoi/ParseUint are interpreted from their real SSA",
                         "NOT APPLICABLE sub-claim: the accepted language of the JSON parser and the re-encoding round trip (encoding/json is reflection-driven over unbounded byte strings; DESIGN §9)"],
